@@ -53,6 +53,13 @@ Example ex_wakeup_two :
     (run 3 ex_children [(1, 0); (2, 3); (0, 3); (1, 2); (1, 0)] (init_state 3 ex_inits)) =
   Some ([Woken; Run 0 2; Woken], [1; 2], true).
 Proof. vm_compute. reflexivity. Qed.
+(* ... and both woken runners take an item while f(0) is still running (C09_queued_items_get_runners): three calls in
+   progress together with n = 3, nothing added or finished meanwhile *)
+Example ex_get_runners :
+  option_map (fun s => (pcs s, todo s, finished s))
+    (run 3 ex_children ([(1, 0); (2, 3); (0, 3); (1, 2); (1, 0)] ++ [(0, 0); (2, 0)]) (init_state 3 ex_inits)) =
+  Some ([Run 1 0; Run 0 2; Run 2 0], [], []).
+Proof. vm_compute. reflexivity. Qed.
 (* a state that VIOLATES the predicate (not reachable): an item queued, a runner asleep, nobody coming *)
 Example ex_wakeup_violated : wakeup_ok (mkState [Parked; Run 0 2; Parked] [1] [1; 0] 2 [0] []) = false.
 Proof. reflexivity. Qed.
